@@ -165,13 +165,12 @@ def distance_cases(ctx):
         else:
             grid = [-1, 0, 2, 3] if m <= 3 else [-1, 0, 2]
         for path, form in combos:
-            for obs in (['A'] if q else ['A', 'B']):
+            for obs, dtype in ([('A', 'float')] if q else [('A', 'float'), ('A', 'int'), ('B', 'float')]):
                 for metric in metrics:
-                    for dtype in (['float'] if q else ['float', 'int']):
-                        for bs in ([1, 2, 3, 'all'] if q else [1, 2, 3, 4, 5, 'all']):
-                            cases.append({'kind': 'distance', 'path': path, 'obsform': form, 'layout': layout,
-                                          'obs': obs, 'metric': metric, 'dtype': dtype, 'bs': bs, 'grid': grid,
-                                          'stride': 0 if q else 1})
+                    for bs in ([1, 2, 3, 'all'] if q else [1, 2, 3, 4, 'all']):
+                        cases.append({'kind': 'distance', 'path': path, 'obsform': form, 'layout': layout,
+                                      'obs': obs, 'metric': metric, 'dtype': dtype, 'bs': bs, 'grid': grid,
+                                      'stride': 0 if q else 1})
     return cases
 
 
@@ -209,17 +208,24 @@ def _scale_ok(model, m, ref):
     s = model['d'].state.get('scale')
     if not isinstance(s, np.ndarray) or s.shape != (m,):
         return False, s
-    return bool(np.allclose(s, ref, rtol=RTOL_SCALE, atol=ATOL_SCALE)), s
+    # same predicate as np.allclose(s, ref, rtol, atol) for finite ref (nan in s fails)
+    return bool((np.abs(s - ref) <= ATOL_SCALE + RTOL_SCALE * np.abs(ref)).all()), s
 
 
-def _add_round(model, layout, dt, rows, comp, contaminated, sub):
-    """add_data calls of one round with the scale oracle after each; -> violation result or None."""
+def _add_round(model, layout, dt, rows, comp, contaminated, sub, refs=None):
+    """add_data calls of one round with the scale oracle after each; -> violation result or None.
+    refs: optional cache {k: np.std(first k rows)} shared between the compositions of one data set."""
     m = R.n_cols(layout)
     k = 0
     for j, c in enumerate(comp):
         _add(model, layout, dt, rows[k:k + c])
         k += c
-        ref = R.pop_std([r[:m] for r in rows[:k]])
+        if refs is not None and k in refs:
+            ref = refs[k]
+        else:
+            ref = R.pop_std([r[:m] for r in rows[:k]])
+            if refs is not None:
+                refs[k] = ref
         good, s = _scale_ok(model, m, ref)
         if not good:
             if j > 0:
@@ -274,8 +280,9 @@ def run_partition(case):
         rows1 = _rows_over(case['grid'], m)
         n = case['n']
         work = []
-        for rest in itertools.product(rows1, repeat=n - 1):
-            rows = [rows1[case['first']]] + [list(r) for r in rest]
+        lead = [rows1[i] for i in case['first']]
+        for rest in itertools.product(rows1, repeat=n - len(lead)):
+            rows = lead + [list(r) for r in rest]
             work.append((rows, R.compositions(n)))
     evals = nonconst = const_prefix = 0
     finals = []
@@ -285,11 +292,12 @@ def run_partition(case):
             continue      # a constant column has scale 0 (update impossible); outside the statement
         nonconst += 1
         last = []
+        refs = {}
         for comp in comps:
             model['d'].init_state()     # what the constructor does; a single-sub-case replay starts from a new model
             _pre(model, layout, dt, pre)
             sub = {'kind': 'partition', 'layout': layout, 'dtype': case['dtype'], 'pre': pre, 'rows': rows, 'comp': comp}
-            v = _add_round(model, layout, dt, rows, comp, pre != 'fresh', sub)
+            v = _add_round(model, layout, dt, rows, comp, pre != 'fresh', sub, refs)
             evals += 1
             if v:
                 return v
@@ -302,28 +310,29 @@ def run_partition(case):
 
 
 def partition_cases(ctx):
-    q = ctx.quick
-    cases = []
-    if q:
-        confs = [('ss', 'float'), ('v', 'int')]
-        plan = [('g3', 1), ('g3', 2), ('g3', 3), ('g3', 4), ('g2', 5)]
-        pres = ['fresh', 'after1']
+    """Explicit plan: (layout, dtype, column grid, n rows, node prehistories)."""
+    F, FA, FAB = ['fresh'], ['fresh', 'after1'], ['fresh', 'after1', 'aborted']
+    if ctx.quick:
+        plan = [('ss', 'float', 'g3', n, FA) for n in (2, 3, 4)] + [('ss', 'float', 'g2', n, FA) for n in (4, 5)]
+        plan += [('v', 'int', 'g3', n, FA) for n in (2, 3)] + [('v', 'int', 'g2', n, FA) for n in (4, 5)]
     else:
-        confs = [('ss', 'float'), ('v', 'int'), ('ss', 'int'), ('v', 'float'), ('cs', 'float'), ('sv', 'float')]
-        plan = [('g3', 1), ('g3', 2), ('g3', 3), ('g3', 4), ('g3', 5), ('g2', 6), ('g2', 7)]
-        pres = ['fresh', 'after1', 'aborted']
-    for layout, dtype in confs:
-        m = R.n_cols(layout)
-        for grid, n in plan:
-            if m == 3 and grid == 'g3' and n >= 5:
-                grid = 'g32'
-            if m == 3 and grid == 'g2' and n >= 7:
-                continue
-            for pre in pres:
-                for first in range(len(_rows_over(grid, m))):
-                    cases.append({'kind': 'partition', 'layout': layout, 'dtype': dtype, 'grid': grid, 'n': n,
-                                  'pre': pre, 'first': first})
-    return [c for c in cases if c['n'] >= 2]
+        plan = []
+        for layout, dtype in [('ss', 'float'), ('v', 'int'), ('ss', 'int'), ('v', 'float'), ('cs', 'float')]:
+            plan += [(layout, dtype, 'g3', n, FAB) for n in (2, 3, 4)] + [(layout, dtype, 'g2', 5, FA)]
+        plan += [('sv', 'float', 'g32', n, FAB) for n in (2, 3, 4)] + [('sv', 'float', 'g2', 5, FA)]
+        plan += [('ss', 'float', 'g3', 5, FA), ('ss', 'float', 'g2', 6, FA), ('ss', 'float', 'g2', 7, FA),
+                 ('v', 'int', 'g2', 6, FA), ('v', 'int', 'g2', 7, F)]
+    cases = []
+    for layout, dtype, grid, n, pres in plan:
+        nrows = len(_rows_over(grid, R.n_cols(layout)))
+        deep = 2 if nrows ** (n - 1) * 2 ** (n - 1) > 40000 else 1      # split big enumerations by two leading rows
+        for pre in pres:
+            for first in itertools.product(range(nrows), repeat=min(deep, n - 1)):
+                cases.append({'kind': 'partition', 'layout': layout, 'dtype': dtype, 'grid': grid, 'n': n,
+                              'pre': pre, 'first': list(first)})
+    # biggest cases first (balance of the worker pool); the order has no influence on what is enumerated
+    cases.sort(key=lambda c: -(len(_rows_over(c['grid'], R.n_cols(c['layout']))) * 2.0) ** (c['n'] - len(c['first'])))
+    return cases
 
 
 # ================================================================ section H2: round histories
@@ -663,14 +672,14 @@ def run(ctx):
 
     if _want(ctx, 'partition'):
         cases = partition_cases(ctx)
-        ctx.run_cases(run_partition, cases, 'partition', sample_every=max(1, len(cases) // 3))
+        ctx.run_cases(run_partition, cases, 'partition', sample_every=max(1, len(cases) // 3), chunksize=1)
 
     if _want(ctx, 'rounds'):
         if q:
             plan = [(('ss', 'float'), 'mid', 2), (('v', 'int'), 'small', 3)]
         else:
-            plan = [(('ss', 'float'), 'large', 3), (('v', 'int'), 'mid', 4), (('ss', 'int'), 'mid', 3),
-                    (('v', 'float'), 'mid', 3), (('sv', 'float'), 'small', 3), (('cs', 'float'), 'small', 4)]
+            plan = [(('ss', 'float'), 'large', 2), (('v', 'int'), 'mid', 3), (('ss', 'int'), 'small', 4),
+                    (('v', 'float'), 'small', 4), (('sv', 'float'), 'small', 3), (('cs', 'float'), 'mid', 3)]
         nstates = {}
         for conf, fam, depth in plan:
             _, ns = explore_rounds(ctx, conf, fam, depth)
